@@ -4,7 +4,7 @@
    (gen/Scalar.v, gen/HxDispatch.v), over Coq's real numbers. *)
 From Coq Require Import Reals Bool.
 From OP Require Import gen.Consts gen.HxDispatch gen.Scalar model.HX
-  proofs.HXBase proofs.HXBranch proofs.HXShell proofs.HXFull proofs.HXSecant proofs.HXRefute proofs.HXLeCF proofs.HXLeCF2 proofs.HXRange2 proofs.LMTD.
+  proofs.HXBase proofs.HXBranch proofs.HXShell proofs.HXFull proofs.HXSecant proofs.HXRefute proofs.HXLeCF proofs.HXLeCF2 proofs.HXRange2 proofs.LMTD proofs.LMTDts.
 Local Open Scope R_scope.
 
 (* Every arrangement the library names, passed as the enum member or as its text, reaches its own branch of HX_Eff and
@@ -103,6 +103,26 @@ Theorem C20_lmtd_sym : forall a b,
      (LMTD_isclose a b = LMTD_isclose b a -> m = m') /\ Rabs (m - m') <= Rabs (a - b) / 2).
 Proof. exact lmtd_sym_all. Qed.
 Print Assumptions C20_lmtd_sym.
+
+(* the four-temperature entry point compute_LMTD_from_ts (also generated): what it accepts, what it refuses, its value,
+   and invariance under a common shift of all four temperatures *)
+Theorem C20_lmtd_ts_bounds : forall Thi Tho Tci Tco m, compute_LMTD_from_ts_R Thi Tho Tci Tco = Some m ->
+  Tho <= Thi /\ Tci <= Tco /\ 0 < Thi - Tco /\ 0 < Tho - Tci /\
+  Rmin (Thi - Tco) (Tho - Tci) <= m <= ((Thi - Tco) + (Tho - Tci)) / 2.
+Proof. exact lmtd_ts_bounds. Qed.
+Print Assumptions C20_lmtd_ts_bounds.
+Theorem C20_lmtd_ts_refuses : forall Thi Tho Tci Tco, Thi < Tho \/ Tco < Tci \/ Thi <= Tco \/ Tho <= Tci ->
+  compute_LMTD_from_ts_R Thi Tho Tci Tco = None.
+Proof. exact lmtd_ts_refuses. Qed.
+Print Assumptions C20_lmtd_ts_refuses.
+Theorem C20_lmtd_ts_is_dts : forall Thi Tho Tci Tco, Tho <= Thi -> Tci <= Tco ->
+  compute_LMTD_from_ts_R Thi Tho Tci Tco = compute_LMTD_from_dts_R (Thi - Tco) (Tho - Tci).
+Proof. exact lmtd_ts_is_dts. Qed.
+Print Assumptions C20_lmtd_ts_is_dts.
+Theorem C20_lmtd_ts_translate : forall Thi Tho Tci Tco d,
+  compute_LMTD_from_ts_R (Thi + d) (Tho + d) (Tci + d) (Tco + d) = compute_LMTD_from_ts_R Thi Tho Tci Tco.
+Proof. exact lmtd_ts_translate. Qed.
+Print Assumptions C20_lmtd_ts_translate.
 
 (* "never exceeds the counter-flow value", branch by branch (single pass, same NTU, same capacity ratio).
    Parallel flow (all NTU > 0, all c in [0,1], via sinh(cN) <= c sinh N) and the condensing/evaporating arrangement,
